@@ -168,6 +168,7 @@ def run_c16(run, tier, wd, binary, replay):
 
 def run_check(prop, tier, replay=None):
     run = vlib.Run(prop, tier, "model_checking")
+    run.write_evidence = replay is None
     wd = vlib.scratch_dir(prop)
     try:
         binary = vlib.build_harness(wd)
